@@ -387,11 +387,56 @@ type Fault struct {
 	Path string // JSON path of the mutated node ($.a.b[2]); for undeclaredKey the object that received the key
 	Doc  JV
 	Base JV // the valid document the fault was injected into
+	// CueMayAccept: CUE's own validator legitimately accepts this fault document — a required
+	// member whose type admits a single value (constant, one-member enum, lo==hi), `_`, a list or
+	// a map is supplied by unification, and so is an absent discriminator when the remaining members
+	// identify the branch.
+	CueMayAccept bool
+}
+
+// singleton: CUE supplies a concrete value when a required member of this type is absent — the
+// type admits exactly one value, or is `_`, an open list or a string-keyed map.
+func (d *Defs) singleton(s *Src, fuel int) bool {
+	s = d.resolve(s)
+	if s == nil || fuel <= 0 {
+		return false
+	}
+	switch s.Kind {
+	case SConst:
+		return true
+	case SEnumS:
+		return len(s.EnumS) == 1
+	case SEnumI:
+		return len(s.EnumI) == 1
+	case SInt:
+		lo, hi := s.effRange()
+		return lo == hi
+	case SNum:
+		return s.FLo != nil && s.FHi != nil && *s.FLo == *s.FHi
+	case SAny, SArray, SDict:
+		// `_` needs no concrete value; an open list / pattern-constraint struct is its own default
+		return true
+	case SOneOfScalars:
+		for _, a := range s.Alts {
+			if a.Kind == SArray { // the list alternative is concrete on its own
+				return true
+			}
+		}
+	case SStruct:
+		for _, f := range s.Fields {
+			if f.Required && f.Default == nil && (f.Nullable || !d.singleton(f.Ty, fuel-1)) {
+				return false
+			}
+		}
+		return true
+	}
+	return false
 }
 
 var coreFaultKinds = []string{"undeclaredKey", "missingRequired", "nullRequired", "wrongType", "min-1", "max+1", "minLength-1", "maxLength+1", "wrongDiscriminator", "absentDiscriminator"}
 
 type faultSite struct {
+	cueOK bool
 	kind string
 	path []pathEl // node to operate on
 	op   byte     // 's' replace node, 'd' delete key from object at path, 'a' add key to object at path
@@ -405,7 +450,7 @@ func (g *docGen) faultSites(ty *Src, node *JV, path []pathEl, skipField string, 
 		return
 	}
 	add := func(kind string, op byte, p []pathEl, key string, v JV) {
-		*out = append(*out, faultSite{kind, p, op, key, v})
+		*out = append(*out, faultSite{false, kind, p, op, key, v})
 	}
 	wrong := func(v JV) { add("wrongType", 's', path, "", v) }
 	switch ty.Kind {
@@ -428,10 +473,20 @@ func (g *docGen) faultSites(ty *Src, node *JV, path []pathEl, skipField string, 
 				}
 				if f.Required && f.Default == nil {
 					add("missingRequired", 'd', path, f.Name, JV{})
+					if ft != nil && !f.Nullable && g.d.singleton(ft, 6) {
+						(*out)[len(*out)-1].cueOK = true
+					}
 				}
 			}
 			if !child.isNull() && f.Name != skipField {
+				before := len(*out)
 				g.faultSites(f.Ty, navigate(node, []pathEl{{key: f.Name}}), fp, "", out)
+				if ft := g.d.resolve(f.Ty); f.Default != nil && ft != nil && ft.Kind == SStruct {
+					// `#S | *{...}`: the default struct is an alternative of its own in CUE
+					for k := before; k < len(*out); k++ {
+						(*out)[k].cueOK = true
+					}
+				}
 			}
 		}
 	case SArray:
@@ -497,6 +552,7 @@ func (g *docGen) faultSites(ty *Src, node *JV, path []pathEl, skipField string, 
 		}
 		add("wrongDiscriminator", 's', extPath(path, pathEl{key: ty.Disc}), "", jStr("zz_unknown_tag"))
 		add("absentDiscriminator", 'd', path, ty.Disc, JV{})
+		(*out)[len(*out)-1].cueOK = true
 		for _, b := range ty.Branches {
 			if b.Tag == dv.S {
 				g.faultSites(srcRef(b.Name), node, path, ty.Disc, out)
@@ -559,7 +615,7 @@ func (g *docGen) faultDoc(kinds []string) (Fault, bool) {
 	k := pick(g.r, order)
 	s := pick(g.r, byKind[k])
 	doc, path := s.apply(base)
-	return Fault{Kind: s.kind, Path: path, Doc: doc, Base: base}, true
+	return Fault{Kind: s.kind, Path: path, Doc: doc, Base: base, CueMayAccept: s.cueOK}, true
 }
 
 // ---- pairs and triples for equality ----
